@@ -58,6 +58,18 @@ VScanEntry(l, kind, en) ==
 VScan(ev) == FirstBad([k \in DOMAIN ev[4] |-> VScanEntry(ev[2], ev[3], ev[4][k])])
 
 (* ["rel", outer, q, kind, outcomeOptimized, outcomeRaw] : outer.parent_to_relative_location(q, optimize_blocks) *)
+(* Named deviation behind the keyed finding loc:selfoverlap-outer.  For ONE block b of the query, the library intersects it
+   with the outer location, takes the lowest and the highest shared parent position, maps each to its FIRST relative
+   pre-image (the 5'->3' block walk of parent_to_relative_pos) and answers with the span between the two
+   (SingleInterval._location_relative_to); a multi-block query is answered block by block.  When the outer location
+   overlaps itself a parent position has several pre-images and that span is not the image -- but it is exactly predictable,
+   and only the predicted position set is filed under the finding. *)
+CodeRelBlockPos(outer, b) ==
+  LET S == BlockPos(b) \cap PosSet(outer) IN
+  IF S = {} THEN {}
+  ELSE LET r1 == Min(Par2RelSet(outer, Min(S))) r2 == Min(Par2RelSet(outer, Max(S))) IN
+       (IF r1 < r2 THEN r1 ELSE r2)..(IF r1 < r2 THEN r2 ELSE r1)
+CodeRelPos(outer, q) == UNION {CodeRelBlockPos(outer, q[1][i]) : i \in DOMAIN q[1]}
 VRelOne(outer, q, o, optimized) ==
   LET shared == PosSet(q) \cap PosSet(outer) IN
   IF ~Directional(St(outer)) \/ ~Directional(St(q)) THEN "ok"            \* not claimed for unstranded operands
@@ -72,7 +84,8 @@ VRelOne(outer, q, o, optimized) ==
        ELSE IF optimized /\ ~SelfOverlap(outer) /\ ~SelfOverlap(q) /\ ~Optimised(r) THEN "rel-optimised"
        ELSE LET got == [i \in DOMAIN Bases(r) |-> Rel2Par(outer, Bases(r)[i])] IN
             IF got = want THEN "ok"
-            ELSE IF SelfOverlap(outer) THEN "rel-selfoverlap-outer"     \* the parent->relative map is multi-valued
+            \* the parent->relative map is multi-valued: the code's span-of-first-pre-images, and nothing else, is the finding
+            ELSE IF SelfOverlap(outer) /\ PosSet(r) = CodeRelPos(outer, q) THEN "rel-selfoverlap-outer"
             ELSE IF SelfOverlap(q) /\ BagOf(got) = BagOf(want) THEN "order-selfoverlap"   \* same bases with multiplicity, order lost
             ELSE "rel-bases"
 VRel(ev) == FirstBad(<<VRelOne(ev[2], ev[3], ev[5], TRUE), VRelOne(ev[2], ev[3], ev[6], FALSE)>>)
